@@ -139,6 +139,14 @@ async fn one_case(seed: u64, case: u64, max_ops: usize, report: &Report) {
         }
         let kind: OpKind = *rng.pick_weighted(&w);
         let rec = h.step(kind).await;
+        // narrow class suffix: was this table dropped and re-created at the same URI earlier in this Session?
+        let recreated: BTreeSet<String> = h
+            .steps
+            .iter()
+            .filter(|s| s.kind == OpKind::DropRecreate && s.outcome.is_ok())
+            .filter_map(|s| s.loc.as_ref().map(|l| l.table.clone()))
+            .collect();
+        let suffix = |loc: &Loc| if recreated.contains(&loc.table) { "-after-drop-and-recreate-at-same-uri" } else { "" };
         let ctx = |h: &Hist| json!({"seed": seed, "case": case, "config": h.cfg.describe(), "cache": cache_name, "tables": n_tables, "after_step": rec.brief(), "ops": h.ops_json(48)});
         for loc in h.live_locs() {
             let lin = &h.lin[&loc];
@@ -193,14 +201,14 @@ async fn one_case(seed: u64, case: u64, max_ops: usize, report: &Report) {
                             report.count("rows_compared", rs.rows.len() as u64);
                             if let Some((class, detail)) = diff(rs, gs) {
                                 report.violation(
-                                    &format!("shared-session-read-{class}"),
+                                    &format!("shared-session-read-{class}{}", suffix(&loc)),
                                     &format!("{}:v{} through the shared Session ({how}, cache {cache_name}) differs from a fresh Session", loc.label(), v),
                                     json!({"ctx": ctx(&h), "how": how, "diff": detail}),
                                 );
                             } else if rr != gr {
                                 let class = if rr.take != gr.take { "take" } else { "indexed-query" };
                                 report.violation(
-                                    &format!("shared-session-{class}-differs"),
+                                    &format!("shared-session-{class}-differs{}", suffix(&loc)),
                                     &format!("{}:v{} {class} through the shared Session ({how}, cache {cache_name}) differs from a fresh Session", loc.label(), v),
                                     json!({"ctx": ctx(&h), "how": how, "fresh": format!("{rr:?}").chars().take(600).collect::<String>(), "shared": format!("{gr:?}").chars().take(600).collect::<String>()}),
                                 );
@@ -208,14 +216,14 @@ async fn one_case(seed: u64, case: u64, max_ops: usize, report: &Report) {
                         }
                         (Ok(_), Err(e)) => {
                             report.violation(
-                                "shared-session-read-fails-where-fresh-session-succeeds",
+                                &format!("shared-session-read-fails-where-fresh-session-succeeds{}", suffix(&loc)),
                                 &format!("{}:v{} ({how}, cache {cache_name}): {}", loc.label(), v, e.chars().take(300).collect::<String>()),
                                 json!({"ctx": ctx(&h), "how": how, "error": e}),
                             );
                         }
                         (Err(e), Ok(_)) => {
                             report.violation(
-                                "fresh-session-read-fails-where-shared-session-succeeds",
+                                &format!("fresh-session-read-fails-where-shared-session-succeeds{}", suffix(&loc)),
                                 &format!("{}:v{} ({how}, cache {cache_name}): {}", loc.label(), v, e.chars().take(300).collect::<String>()),
                                 json!({"ctx": ctx(&h), "how": how, "error": e}),
                             );
